@@ -1,7 +1,6 @@
 package ysgo
 
 import (
-	"github.com/remieven/ysgo/internal/container"
 	"github.com/remieven/ysgo/internal/tree"
 	"github.com/remieven/ysgo/variable"
 )
@@ -96,17 +95,7 @@ func vArbSnapshot(w *vWorld) *Snapshot {
 
 // vSimpleRunner: a second runner of the same script in its initial state.
 func vSimpleRunner(w *vWorld) *DialogueRunner {
-	st := container.Stack[*statementQueue]{}
-	st.Push(&statementQueue{statements: w.nodes[0].Statements})
-	return &DialogueRunner{
-		dialogue:       w.dr.dialogue,
-		statementsToRun: st,
-		variableStorer: variable.NewInMemoryStorer(),
-		functionStorer: w.dr.functionStorer,
-		commandStorer:  newCommandStorer(),
-		visitedNodes:   map[string]int{},
-		currentNode:    "n0",
-	}
+	return vRunnerAt(variable.NewInMemoryStorer(), w.dr.dialogue, "n0", w.nodes[0].Statements...)
 }
 
 // VHRestore: RestoreAt(s) into a runner in any state of the state space (incl. waiting for a choice,
